@@ -117,12 +117,17 @@ type ContractDB struct {
 }
 
 func newDB() *ContractDB {
+	profiled = map[string]bool{}
 	return &ContractDB{Funcs: map[string]*Contract{}, Specs: map[string]*SpecFn{}, Lemmas: map[string]*Lemma{}, Ghosts: map[string]*GhostVar{}, Consts: map[string]*ConstDef{}}
 }
 
 var subKeywords = map[string]bool{"arith": true, "requires": true, "assumes": true, "allocates": true, "ensures": true, "assigns": true, "pure": true, "inline": true,
 	"trusted": true, "loop": true, "invariant": true, "decreases": true, "unroll": true, "assert": true, "check": true, "assume": true, "replay": true,
 	"nosafety": true, "abstract": true, "using": true, "let": true, "opaque": true, "keeps": true, "dead": true, "trusts": true, "ignores": true, "every": true}
+// contract profile selected by the property being checked ("" = default contracts only)
+var activeProfile string
+var profiled = map[string]bool{}
+
 var topKeywords = map[string]bool{"func": true, "spec": true, "macro": true, "lemma": true, "axiom": true, "ghost": true, "const": true, "global": true, "evalconst": true, "onalloc": true, "pkgframe": true}
 
 // collect //@ lines of a file, joined into logical clauses.
@@ -301,7 +306,30 @@ func (db *ContractDB) loadFile(pkg *packages.Package, f *ast.File, fname string)
 		where := fname + ": " + l
 		switch kw {
 		case "func":
+			// `func F @profile`: an alternative contract of F, used instead of the default one when the
+			// property being checked selects that profile (two properties may need different abstractions
+			// of the same function); ignored otherwise
+			profile := ""
+			if i := strings.LastIndex(rest, " @"); i >= 0 {
+				profile = strings.TrimSpace(rest[i+2:])
+				rest = strings.TrimSpace(rest[:i])
+			}
 			cur = &Contract{Decl: rest, Key: canonKey(rest, pkg.PkgPath), Pkg: pkg, Loops: map[int]*LoopC{}, File: fname}
+			curLoop, curLemma = nil, nil
+			if profile != "" {
+				if profile != activeProfile {
+					continue // parsed into a contract nobody looks up
+				}
+				if profiled[cur.Key] {
+					db.errf("%s: duplicate contract for %s @%s", fname, cur.Key, profile)
+				}
+				profiled[cur.Key] = true
+				db.Funcs[cur.Key] = cur
+				continue
+			}
+			if profiled[cur.Key] {
+				continue
+			}
 			if _, dup := db.Funcs[cur.Key]; dup {
 				db.errf("%s: duplicate contract for %s", fname, cur.Key)
 			}
